@@ -15,6 +15,8 @@ From Coq Require Import List Arith Bool.
 Import ListNotations.
 From ZV.Conc Require Import Sched PoolModel PoolLemmas PoolInvDefs PoolInv3 PoolInv4 PoolInv9 PoolTheorems PoolLive PoolExamples.
 From ZV.Conc Require Import PoolSafety PoolTermDefs PoolTermStep PoolTerm PoolFair PoolFairEx PoolLimit PoolFault.
+From ZV.Conc Require PoolShared.
+From ZV.Conc Require Import PoolAbs PoolLift.
 
 (* the circular buffer agrees with the FIFO list of accepted-but-not-started jobs (both queueSize > 1 and the
    hand-off pool queueSize = 1); queueEmpty is exact *)
@@ -247,3 +249,124 @@ Example pool_resize_failure_run :
   let s := reach true rf_bodies rf_progs 1 1 (rf_prefix ++ rr 40 3) in
   all_done s = true /\ cap (sp s) = 2 /\ limit (sp s) = 1 /\ map snd (done (sg s)) = [0; 1].
 Proof. exact resize_failure_run_completes. Qed.
+
+
+(* ====================================================================================================================
+   Round 3.  (a) What ONE step of the fine-grained model does to the pool as its clients see it (PoolAbs.v).
+             (b) SEVERAL CLIENTS - compression contexts, each driven by its own application thread - ON ONE POOL, the
+                 way ZSTDMT uses a pool shared through ZSTD_CCtx_refThreadPool (PoolShared.v): a client posts with
+                 POOL_tryAdd and SPINS while the pool refuses (APost), or accepts the refusal (ATry), resizes the pool
+                 (AResize; what ZSTDMT_resize did to a provided pool before 3b19e13), waits for ITS OWN jobs (AWait =
+                 ZSTDMT_waitForAllJobsCompleted: start of a frame, ZSTDMT_freeCCtx on a provided pool since f02e35a).
+                 One step of that model = one critical section of pool.c.
+   view = (queued tickets in FIFO order, running tickets, log of finished tickets, numThreadsBusy, threadLimit,
+   threadCapacity, isQueueFull); PoolAbs.vtrans = the six pool transitions on a view: nothing / push of a ticket at the tail
+   while not full / pop of the head while numThreadsBusy < threadLimit / completion of a running job / numThreadsBusy-- /
+   resize. *)
+
+(* every step of every thread of PoolModel, in every state reachable from POOL_create, is one of the six pool transitions *)
+Theorem pool_step_is_pool_transition : forall fx bodies progs n q sched tid w s',
+  progs <> [] -> 1 <= n ->
+  let s := reach fx bodies progs n q sched in
+  step (mkcfg fx progs bodies) tid w s = Some s' -> vtrans (view_of s) (view_of s').
+Proof. exact reach_step_is_pool_transition. Qed.
+Print Assumptions pool_step_is_pool_transition.
+
+(* isQueueFull evaluated on head / tail / queueEmpty / numThreadsBusy / threadLimit is the predicate on the abstract queue that
+   PoolShared.afull uses (queue of queueSize-1 entries; hand-off pool: all allowed threads busy, or an entry waits) *)
+Theorem pool_full_is_queue_full : forall fx bodies progs n q sched,
+  progs <> [] -> 1 <= n ->
+  let s := reach fx bodies progs n q sched in
+  is_full (sp s) = if 1 <? qsize (sp s) then length (pending (sg s)) =? qsize (sp s) - 1
+                   else (busy (sp s) =? limit (sp s)) || negb (length (pending (sg s)) =? 0).
+Proof. exact reach_full_is_abstract_full. Qed.
+Print Assumptions pool_full_is_queue_full.
+
+(* every step of the several-clients model is one of the SAME six transitions: both models refine one transition system *)
+Theorem shared_step_is_pool_transition : forall a s s',
+  PoolShared.astep a s = Some s' -> vtrans (aview s) (aview s').
+Proof. exact astep_is_pool_transition. Qed.
+Print Assumptions shared_step_is_pool_transition.
+
+(* exactly once, for any number of clients, any programs, any schedule: every ticket issued is in exactly one of
+   queued / running / finished, a ticket never issued is nowhere *)
+Theorem shared_exactly_once : forall progs threads q sched, 1 <= threads ->
+  let s := PoolShared.arun sched (PoolShared.ainit progs threads q) in
+  forall k,
+    (k < PoolShared.a_next s ->
+       count_occ Nat.eq_dec (map fst (PoolShared.a_pend s ++ PoolShared.running s ++ PoolShared.a_done s)) k = 1) /\
+    (PoolShared.a_next s <= k ->
+       count_occ Nat.eq_dec (map fst (PoolShared.a_pend s ++ PoolShared.running s ++ PoolShared.a_done s)) k = 0).
+Proof. exact PoolShared.shared_exactly_once_lemma. Qed.
+Print Assumptions shared_exactly_once.
+
+(* a step either changes NOTHING (the refused POOL_tryAdd of a spinning client) or makes the measure amu smaller *)
+Theorem shared_step_stutters_or_decreases : forall a s s',
+  PoolShared.astep a s = Some s' -> s' = s \/ PoolShared.amu s' < PoolShared.amu s.
+Proof. exact PoolShared.astep_decreases. Qed.
+Print Assumptions shared_step_stutters_or_decreases.
+
+(* progress: in a reachable state that is not final (a program not finished, a job queued or a worker not idle) SOME actor has an
+   enabled step that makes the measure smaller - a saturated pool never wedges its clients: when every tryAdd is refused a
+   worker can finish or pop *)
+Theorem shared_progress : forall progs threads q sched, 1 <= threads ->
+  let s := PoolShared.areach progs threads q sched in
+  PoolShared.afinal s = false ->
+  exists a s', PoolShared.astep a s = Some s' /\ PoolShared.amu s' < PoolShared.amu s.
+Proof. exact PoolShared.shared_progress_lemma. Qed.
+Print Assumptions shared_progress.
+
+(* LIVENESS WITH SPINNING CLIENTS: under every fair infinite schedule (every actor is picked again and again) the run reaches a
+   final state - every client program finished (so every spinning POOL_tryAdd was accepted and every wait returned), nothing
+   queued, every worker idle - in which every ticket ever issued has been executed exactly once *)
+Theorem shared_fair_run_completes : forall sigma progs threads q, 1 <= threads -> PoolShared.afair sigma ->
+  exists n, let s := PoolShared.arun_inf sigma n (PoolShared.ainit progs threads q) in
+    PoolShared.afinal s = true /\
+    forall k, (k < PoolShared.a_next s -> count_occ Nat.eq_dec (map fst (PoolShared.a_done s)) k = 1)
+           /\ (PoolShared.a_next s <= k -> count_occ Nat.eq_dec (map fst (PoolShared.a_done s)) k = 0).
+Proof. exact PoolShared.shared_fair_run_completes_lemma. Qed.
+Print Assumptions shared_fair_run_completes.
+
+(* ... but the NUMBER of steps is not bounded: while the pool is full a spinning client can be scheduled any number of times
+   (this is the busy spin of ZSTD_compressStream2 on a saturated shared pool; compare pool_steps_bounded for the blocking API) *)
+Theorem shared_spin_unbounded : forall s c r,
+  c < length (PoolShared.a_progs s) -> nth c (PoolShared.a_progs s) [] = PoolShared.APost :: r -> PoolShared.afull s = true ->
+  forall n, PoolShared.arun (repeat c n) s = s.
+Proof. exact PoolShared.spin_unbounded_lemma. Qed.
+Print Assumptions shared_spin_unbounded.
+
+(* a client whose program ends with the wait for its own jobs: from the step that ends the wait on, for ever and whatever the
+   other clients post, none of its jobs is queued or running (ZSTDMT_freeCCtx may free the job descriptions: f02e35a) *)
+Theorem shared_wait_then_quiescent : forall c s s' sched,
+  c < length (PoolShared.a_progs s) -> nth c (PoolShared.a_progs s) [] = [PoolShared.AWait] ->
+  PoolShared.astep c s = Some s' ->
+  let s'' := PoolShared.arun sched s' in
+  nth c (PoolShared.a_progs s'') [] = [] /\ PoolShared.owned c (PoolShared.a_pend s'' ++ PoolShared.running s'') = [].
+Proof. exact PoolShared.shared_wait_then_quiescent_lemma. Qed.
+Print Assumptions shared_wait_then_quiescent.
+
+(* whoever lowered threadLimit: numThreadsBusy only grows by the pop of the queue's head, by one, below the limit *)
+Theorem shared_pop_below_limit : forall a s s',
+  PoolShared.astep a s = Some s' -> PoolShared.a_busy s < PoolShared.a_busy s' ->
+  PoolShared.a_busy s' = S (PoolShared.a_busy s) /\ PoolShared.a_busy s < PoolShared.a_limit s /\
+  PoolShared.a_limit s' = PoolShared.a_limit s /\
+  exists e, PoolShared.a_pend s = e :: PoolShared.a_pend s' /\ In e (PoolShared.running s').
+Proof. exact PoolShared.pop_below_limit_lemma. Qed.
+Print Assumptions shared_pop_below_limit.
+
+(* the hypotheses are satisfiable: a fair scheduler exists; two contexts on a pool of one thread (the second also resizes it)
+   complete under it; on the way the second context faces a full pool and can be refused any number of times *)
+Example shared_fair_scheduler_exists : PoolShared.afair PoolShared.sq_sigma.
+Proof. exact PoolShared.sq_sigma_fair. Qed.
+
+Example shared_example_completes :
+  let s := PoolShared.arun_inf PoolShared.sq_sigma 400 (PoolShared.ainit PoolShared.ex_progs 1 0) in
+  PoolShared.afinal s = true /\ map fst (PoolShared.a_done s) = [0; 1; 2; 3] /\ length (PoolShared.a_work s) = 2.
+Proof. exact PoolShared.ex_completes. Qed.
+
+Example shared_example_spins :
+  let s := PoolShared.areach PoolShared.ex_progs 1 0 [0] in
+  PoolShared.afull s = true /\
+  nth 1 (PoolShared.a_progs s) [] = [PoolShared.APost; PoolShared.AResize 2; PoolShared.APost; PoolShared.AWait] /\
+  forall n, PoolShared.arun (repeat 1 n) s = s.
+Proof. exact PoolShared.ex_spins. Qed.
